@@ -3,6 +3,7 @@ package main
 import (
 	"fmt"
 	"go/token"
+	"go/types"
 	"strings"
 
 	"golang.org/x/tools/go/ssa"
@@ -205,6 +206,49 @@ func runC17(r *Report) {
 			})
 		}
 		r.Note("R-C17-1: capped table %s.%s (%s): %d insertion site(s)", ct.typ, ct.field, ct.limit, nIns)
+	}
+	// a per-client quota counts every member the client is a party to: the list it is counted from is
+	// the client's index as stored, not one filtered by the client's role (the index is two-directional:
+	// a mapping is listed under its listening and under its target client)
+	for _, s := range sites {
+		if !strings.Contains(s.limit, "PerClient") {
+			continue
+		}
+		var listCalls []*ssa.Call
+		Instrs(s.fn, func(in ssa.Instruction) {
+			if call, ok := in.(*ssa.Call); ok {
+				listCalls = append(listCalls, call)
+			}
+		})
+		for _, call := range listCalls {
+			c := ssa.CallInstruction(call)
+			h := call.Common().StaticCallee()
+			if h == nil || len(h.Blocks) == 0 || h.Pkg == nil || !strings.HasPrefix(h.Pkg.Pkg.Path(), Module) {
+				continue
+			}
+			res := h.Signature.Results()
+			if res.Len() == 0 {
+				continue
+			}
+			sl, isSl := res.At(0).Type().Underlying().(*types.Slice)
+			if !isSl || !strings.Contains(sl.Elem().String(), "PortMapping") {
+				continue
+			}
+			filtered := ""
+			Instrs(h, func(in ssa.Instruction) {
+				bo, ok := in.(*ssa.BinOp)
+				if !ok || (bo.Op != token.EQL && bo.Op != token.NEQ) {
+					return
+				}
+				for _, pr := range [][2]ssa.Value{{bo.X, bo.Y}, {bo.Y, bo.X}} {
+					_, fld, _, isF := FieldOf(pr[0])
+					if _, isP := stripValue(pr[1]).(*ssa.Parameter); isF && isP && (fld == "ListenClientID" || fld == "TargetClientID") {
+						filtered = fld
+					}
+				}
+			})
+			r.Ob("R-C17-1", CallPos(c), filtered == "", "the list a per-client quota ("+s.limit+") is counted from is not filtered by the client's role"+map[bool]string{true: "", false: " (" + h.Name() + " keeps only entries whose " + filtered + " is the client)"}[filtered == ""], r.P.FuncName(s.fn), "quota-counts-both-roles:"+h.Name())
+		}
 	}
 	for _, s := range sites {
 		fn := r.P.FuncName(s.fn)
